@@ -257,6 +257,29 @@ def map_events(args) -> list:
                       "first": _outcome(m.first), "last": _outcome(m.last), "single": _outcome(m.single),
                       "strict": _outcome(lambda: z.at_strictly(ldt)), "lenient": _outcome(lambda: z.at_leniently(ldt)),
                       "cal": ldt.calendar.id}
+                # the stock resolvers, one (ambiguity, gap) pair and one route per event:
+                #   ambiguity: 0 earlier, 1 later, 2 raise; gap: 0 end of the interval before, 1 start of the interval after,
+                #   2 shifted forward by the gap, 3 raise; route: resolve_local / LocalDateTime.in_zone
+                from pyoda_time.time_zones import Resolvers
+
+                amb = rnd.randrange(3)
+                skp = rnd.randrange(4)
+                res = Resolvers.create_mapping_resolver(
+                    [Resolvers.return_earlier, Resolvers.return_later, Resolvers.throw_when_ambiguous][amb],
+                    [Resolvers.return_end_of_interval_before, Resolvers.return_start_of_interval_after, Resolvers.return_forward_shifted,
+                     Resolvers.throw_when_skipped][skp])
+                route = rnd.randrange(2)
+                ev["amb"], ev["skp"], ev["route"] = amb, skp, route
+                try:
+                    zr = z.resolve_local(ldt, res) if route == 0 else ldt.in_zone(z, res)
+                    ev["resolved"] = t3i(zr.to_instant())
+                    ev["resolved_meta"] = zr.zone == z and zr.calendar == ldt.calendar
+                except Exception as e2:  # noqa: BLE001
+                    nm = type(e2).__name__
+                    ev["resolved"] = SKIPPED if nm == "SkippedTimeError" else AMBIG if nm == "AmbiguousTimeError" else [0, 0, -9]
+                    ev["resolved_meta"] = True
+                ev["strict2"] = _outcome(lambda: ldt.in_zone_strictly(z))
+                ev["lenient2"] = _outcome(lambda: ldt.in_zone_leniently(z))
                 # reverse direction: every reported instant renders back to this local date-time
                 back_ok = True
                 for o in {tuple(ev["first"]), tuple(ev["last"])}:
